@@ -198,6 +198,8 @@ def run(chk):
                     chk.violated("R1", inst, text + ("; e.g. at %s" % w if w else ""), loc, witness=w)
             except ev.Inconclusive as x:
                 chk.inconclusive("R1", inst, str(x), loc)
+    if not any(o["rule"] == "R4" for o in chk.obs):
+        chk.holds("R4", "all kernels", "%d kernel overloads evaluated: none casts a computed value to a narrower numeric type" % n, "")
     chk.floor("kernel overloads (x3 numeric types)", n, 300)
     chk.coverage["kernel_overloads"] = n
 
